@@ -129,6 +129,35 @@ class Translator:
         raise Unrecognised('conditional expression %s' % unparse(node))
 
 
+class _Timeout(BaseException):
+    pass
+
+
+class time_limit:
+    """SIGALRM based limit for a sympy call (main thread only; no-op elsewhere)."""
+
+    def __init__(self, seconds):
+        self.seconds = seconds
+
+    def __enter__(self):
+        import signal
+        import threading
+        self.active = threading.current_thread() is threading.main_thread()
+        if self.active:
+            def handler(signum, frame):
+                raise _Timeout()
+            self.old = signal.signal(signal.SIGALRM, handler)
+            signal.setitimer(signal.ITIMER_REAL, self.seconds)
+        return self
+
+    def __exit__(self, *exc):
+        import signal
+        if self.active:
+            signal.setitimer(signal.ITIMER_REAL, 0)
+            signal.signal(signal.SIGALRM, self.old)
+        return False
+
+
 def decide_equal(a, b, seed=0, trials=6):
     """HOLDS (True) / VIOLATED (False) / None (unknown).  a, b sympy terms."""
     try:
@@ -145,8 +174,9 @@ def decide_equal(a, b, seed=0, trials=6):
                   lambda e: sp.simplify(sp.expand_log(e, force=True)),
                   ):
             try:
-                r = f(d)
-            except Exception:
+                with time_limit(4):
+                    r = f(d)
+            except (Exception, _Timeout):
                 continue
             if r == 0:
                 return True
@@ -155,8 +185,9 @@ def decide_equal(a, b, seed=0, trials=6):
     # opaque applied functions become independent symbols (sound: they are arbitrary functions);
     # distinct unevaluated sums cannot be compared numerically -> unknown
     try:
-        d = sp.simplify(d)
-    except Exception:
+        with time_limit(4):
+            d = sp.simplify(d)
+    except (Exception, _Timeout):
         pass
     sums = d.atoms(sp.Sum)
     if len(sums) > 1:
@@ -176,11 +207,13 @@ def decide_equal(a, b, seed=0, trials=6):
     nonzero = 0
     evaluated = 0
     for _ in range(trials * 3):
-        sub = {s: sp.Rational(rnd.randint(2, 40), rnd.randint(1, 9)) + (1 if s.is_positive else 0) for s in syms}
+        sub = {s: (sp.Integer(rnd.randint(2, 9)) if s.is_integer else
+                   sp.Float(sp.Rational(rnd.randint(2, 40), rnd.randint(1, 9)) + (1 if s.is_positive else 0), 50)) for s in syms}
         try:
-            v = d.xreplace(sub)
-            v = sp.N(v, 40)
-        except Exception:
+            with time_limit(5):
+                v = d.xreplace(sub)
+                v = sp.N(v, 40)
+        except (Exception, _Timeout):
             continue
         if v.is_number is not True or v.has(sp.nan, sp.zoo, sp.oo):
             continue
@@ -210,7 +243,7 @@ def counterpoint(a, b, seed=0):
     syms = sorted(d.free_symbols, key=lambda s: s.name)
     rnd = random.Random(99 + seed)
     for _ in range(20):
-        sub = {s: sp.Rational(rnd.randint(2, 40), rnd.randint(1, 9)) + 1 for s in syms}
+        sub = {s: (sp.Integer(rnd.randint(2, 9)) if s.is_integer else sp.Float(sp.Rational(rnd.randint(2, 40), rnd.randint(1, 9)) + 1, 30)) for s in syms}
         try:
             v = sp.N(d.xreplace(sub), 30)
             if v.is_number and abs(complex(v)) > 1e-25:
